@@ -36,6 +36,10 @@ type c12Shared struct {
 	t2jConv *t2j.BinaryConv
 	gopts   *generic.Options
 	lookups []string
+	// a container- or scalar-typed member of each document as a value of its own (cutting a non-struct root)
+	memberMsgs  [][]byte
+	memberDesc  []*thrift.TypeDescriptor
+	memberDesc2 []*thrift.TypeDescriptor
 	// exception conversion (t2j ConvertException): response descriptor + a message whose exception field is set
 	respDesc *thrift.TypeDescriptor
 	excMsg   []byte
@@ -89,10 +93,11 @@ const (
 	opPBInterface
 	opPBFields
 	opPBSet
+	opMarshalToMember
 	nC12Ops
 )
 
-var c12OpNames = [nC12Ops]string{"j2t.Do", "j2t.DoInto", "t2j.Do", "t2j.DoInto", "GetByPath", "Children", "Load+Marshal", "MarshalTo", "desc-lookups", "Interface", "t2j.Do(ConvertException)", "j2t.Do(http-mapping, empty body)", "p2j.Do", "j2p.Do", "j2t.Do(http-mapping, body with missing root fields)", "pb.Load+Marshal", "pb.Interface", "pb.Fields+GetMany", "pb.SetByPath (private copy)"}
+var c12OpNames = [nC12Ops]string{"j2t.Do", "j2t.DoInto", "t2j.Do", "t2j.DoInto", "GetByPath", "Children", "Load+Marshal", "MarshalTo", "desc-lookups", "Interface", "t2j.Do(ConvertException)", "j2t.Do(http-mapping, empty body)", "p2j.Do", "j2p.Do", "j2t.Do(http-mapping, body with missing root fields)", "pb.Load+Marshal", "pb.Interface", "pb.Fields+GetMany", "pb.SetByPath (private copy)", "MarshalTo of a non-struct member value"}
 
 type c12Result struct {
 	Out []byte
@@ -181,6 +186,15 @@ func (s *c12Shared) exec(op *c12Op) (res c12Result) {
 	case opMarshalTo:
 		v := generic.NewValue(s.desc, input(s.msgs[op.Doc]))
 		out, err := v.MarshalTo(s.desc2, s.gopts)
+		res.Out = out
+		seterr(err)
+	case opMarshalToMember:
+		k := op.Doc
+		if k >= len(s.memberMsgs) || s.memberMsgs[k] == nil {
+			break
+		}
+		v := generic.NewValue(s.memberDesc[k], input(s.memberMsgs[k]))
+		out, err := v.MarshalTo(s.memberDesc2[k], s.gopts)
 		res.Out = out
 		seterr(err)
 	case opDescLookup:
@@ -594,6 +608,25 @@ func runC12(w *W) {
 		sh.jsons = append(sh.jsons, jb.B)
 		sh.msgs = append(sh.msgs, mb.B)
 		sh.vals = append(sh.vals, val)
+		{
+			var mm []byte
+			var md, md2 *thrift.TypeDescriptor
+			var cands []TFieldVal
+			for _, fv := range val.Fields {
+				if fv.F != nil && fv.V != nil && fv.F.T.Kind != tSTRUCT {
+					cands = append(cands, fv)
+				}
+			}
+			if len(cands) > 0 {
+				fv := cands[t.Intn(len(cands), "member.which")]
+				b := w.AllocData(encodeThrift(nil, fv.V), simrt.PlaceReadOnly)
+				roBufs = append(roBufs, b)
+				mm = b.B
+				md = sh.desc.Struct().FieldById(thrift.FieldID(fv.F.ID)).Type()
+				md2 = sh.desc2.Struct().FieldById(thrift.FieldID(fv.F.ID)).Type()
+			}
+			sh.memberMsgs, sh.memberDesc, sh.memberDesc2 = append(sh.memberMsgs, mm), append(sh.memberDesc, md), append(sh.memberDesc2, md2)
+		}
 		// the http body: the same document without some of its root members
 		hv := &TVal{T: val.T}
 		for _, fv := range val.Fields {
@@ -793,6 +826,10 @@ func drawC12Op(w *W, sh *c12Shared) *c12Op {
 		in = sh.jsons[op.Doc]
 	case opHTTPBody:
 		in = sh.httpBodies[op.Doc]
+	case opMarshalToMember:
+		if op.Doc < len(sh.memberMsgs) && sh.memberMsgs[op.Doc] != nil {
+			in = sh.memberMsgs[op.Doc]
+		}
 	case opP2J, opPBLoadMarshal, opPBInterface, opPBFields, opPBSet:
 		if len(sh.pbMsgs) > 0 {
 			in = sh.pbMsgs[op.Doc%len(sh.pbMsgs)]
